@@ -588,6 +588,33 @@ func externEffect(f *ssa.Function) []string {
 	return nil
 }
 
+// writersOf: every function of the package that stores to (or atomically updates) a field component
+func (e *Engine) writersOf(comp string) []string {
+	set := map[string]bool{}
+	for key, fn := range e.funcs {
+		for _, b := range fn.Blocks {
+			for _, in := range b.Instrs {
+				var addr ssa.Value
+				switch s := in.(type) {
+				case *ssa.Store:
+					addr = s.Addr
+				case *ssa.Call:
+					if f := s.Call.StaticCallee(); f != nil && f.Pkg != nil && f.Pkg.Pkg.Path() == "sync/atomic" && len(s.Call.Args) > 0 && !strings.HasPrefix(f.Name(), "Load") {
+						addr = s.Call.Args[0]
+					}
+				}
+				if addr == nil {
+					continue
+				}
+				if c, _ := e.staticFieldComp(addr); c == comp {
+					set[key] = true
+				}
+			}
+		}
+	}
+	return sortedKeys(set)
+}
+
 func (e *Engine) findIfaceImpls() {
 	e.ifaceImpl = map[string][]*ssa.Function{}
 }
